@@ -47,6 +47,16 @@ Example saved_is_latest_hypotheses_met :
   Forall wf_event example_history /\ consistent example_history /\ case_distinct example_history.
 Proof. exact (conj example_wf (conj example_consistent example_case_distinct)). Qed.
 
+(* ... and the save does happen: for ALL histories, when some persistent topic received a new value since the
+   last save, the delayed-save timer is running (an observer who waits sees a save). *)
+Theorem change_makes_save_due :
+  forall (cfg : config) (d : fs entry) (h : list event) (b : bool),
+    Forall wf_event h ->
+    snd (step (fst (run (init_sys cfg d) h)) Wait) = Waited b ->
+    save_due h = true -> b = true.
+Proof. exact wait_sees_due. Qed.
+Print Assumptions change_makes_save_due.
+
 (* 3. For EVERY directory with a main file, EVERY content to be written, EVERY way of splitting the write
       into chunks, EVERY pattern of failing operations and EVERY prefix of the operation sequence of
       saveState (g ranges over the directory before the save and after each completed operation):
@@ -120,6 +130,7 @@ Theorem checker_sound :
         saved_is_current (map fst pre) = true ->
         forall t ob, persistent_topic t = true -> restorable_topic t = true ->
                      last_obj t (map fst pre) = Some ob -> slookup (to_lower t) l = Some ob
+    | Wait, Waited saved => save_due (map fst pre) = true -> saved = true
     | _, _ => True
     end.
 Proof. exact checker_accepts_means. Qed.
